@@ -353,8 +353,16 @@ func (r *RootApp) Run() error {
 			fileLog.Err(err).Msg("can't determine if outfile exists")
 			return fmt.Errorf("determining if outfile exists: %w", err)
 		}
-		if outFileExists && !*packageConfig.Config.ForceFileWrite {
-			fileLog.Error().Bool("force-file-write", *packageConfig.Config.ForceFileWrite).Msg("output file exists, can't write mocks")
+		// An existing file is only replaced if every mock that lands in it
+		// allows that (the setting may be given at the interface level).
+		forceFileWrite := true
+		for _, iface := range interfacesInFile.interfaces {
+			if !*iface.Config.ForceFileWrite {
+				forceFileWrite = false
+			}
+		}
+		if outFileExists && !forceFileWrite {
+			fileLog.Error().Bool("force-file-write", forceFileWrite).Msg("output file exists, can't write mocks")
 			return fmt.Errorf("outfile exists")
 		}
 
